@@ -430,7 +430,8 @@ PROPS["C11"] = {
          "bound": "pattern 3, value <= 3, unwind 10",
          "oracle": "whole-value match, * any sequence, ? ordinary, \\\\* \\\\\\\\ literal, ASCII case sensitive; rejected iff **, stars > limit, invalid/dangling escape", "min_covers": 4},
     ],
-    "not_covered": "everything about `matches` (regex-automata cannot be compiled by Kani), the operator -> "
+    "not_covered": "the regex engine behind `matches`, its configuration and limits, the quoted-pattern scanner "
+                   "(regex-automata cannot be compiled by Kani; only the wrapper and the arm are decided), the operator -> "
                    "Wildcard<false/true> wiring in the lexer, patterns longer than 3",
 }
 
